@@ -171,6 +171,34 @@ class Ctx:
                     df.values[...] = 123.0
                 except ValueError:
                     pass            # (read-only buffer: nothing to scribble on)
+        # ... and the containers the network's read-only properties hand out (each access builds a new one: they are the caller's)
+        nw = sim.network
+        ids_ = nw.station_ids
+        how_ = r.choice(["reverse", "sort", "rotate", "append"])      # (mostly re-orderings: silent if they reach the network)
+        if how_ == "reverse":
+            ids_.reverse()
+        elif how_ == "sort":
+            ids_.sort(key=lambda x_: (len(str(x_)), str(x_)), reverse=r.random() < 0.5)
+        elif how_ == "rotate" and len(ids_) > 1:
+            ids_.append(ids_.pop(0))
+        else:
+            ids_.append("NOT-A-STATION")
+        v_ = nw.voltages
+        for k_ in list(v_):
+            v_[k_] = -1.0
+        v_.clear()
+        ph_ = nw.phase_angles
+        for k_ in list(ph_):
+            ph_[k_] = 77.0
+        act_ = nw.active_station_ids
+        act_.clear()
+        evl_ = nw.active_evs
+        evl_.clear()
+        cr_ = nw.current_charging_rates
+        try:
+            cr_[...] = -3.0
+        except (ValueError, TypeError):
+            pass
         self.fired("monitor_edited_its_frames")
 
     def apply_reconfig(self, network, r):
